@@ -269,6 +269,10 @@ class ParallelChannelPulseTemplate(PulseTemplate):
                                          ) -> Dict[str, Union[numbers.Real, ExpressionScalar]]:
         """Return a dictionary of ChannelID to channel value mappings. The channel values can bei either numbers or time
         dependent expressions."""
+        if 't' in parameters and any('t' in value.variables for value in self.overwritten_channels.values()):
+            # t is the time variable of a time dependent value: a parameter that happens to be called t must not be
+            # substituted for it
+            parameters = {name: value for name, value in parameters.items() if name != 't'}
         return {channel_mapping[name]: value.evaluate_symbolic(parameters) if 't' in value.variables else value.evaluate_in_scope(parameters)
                 for name, value in self.overwritten_channels.items()
                 if channel_mapping[name] is not None}
